@@ -97,8 +97,9 @@ def run_property(prop, tier, seed):
         "wall_s": round(wall, 2),
         "violations": sum(len(vs) for _, _, vs in lines),
     }
-    os.makedirs(os.path.join(VERIF, "evidence"), exist_ok=True)
-    with open(os.path.join(VERIF, "evidence", f"{prop}.json"), "w") as f:
+    evdir = os.environ.get("VERIF_EVIDENCE_DIR") or os.path.join(VERIF, "evidence")
+    os.makedirs(evdir, exist_ok=True)
+    with open(os.path.join(evdir, f"{prop}.json"), "w") as f:
         json.dump(evidence, f, indent=1, default=str)
     summ = {k: v for k, v in cov.items() if isinstance(v, (int, float, bool))}
     print(f"[{prop}] tier={tier} seed={seed} {summ} wall={wall:.1f}s")
